@@ -9,12 +9,16 @@ CHECK = dict(
         "model profile database honouring the contract of profiledb.Default; passwords checked by byte comparison",
         "requests are built as the dnsserver package builds them: URL only on DoH, userinfo only on DoH, TLS server name only on DoH/DoT/DoQ, EDNS options on every transport",
         "device domains are lower-case, as produced from device_id_wildcards",
+        "cmd unit: rate-limit and dns sections are filled in by hand next to the parsed server_groups section; the handlers are made with dnssvc.NewHandlers as builder.initDNS makes them, over a recording profile database; interface listeners use the loopback interface lo (127.0.0.0/8), a case is discarded if it is not usable",
     ],
     units=[
         dict(name="devicefinder", dir=D, src="C03/devicefinder", runs=[
             dict(name="find", run="^TestVerifC03Find$", quick=80000, thorough=1000000, shards_quick=2, shards_thorough=8),
             dict(name="middleware", run="^TestVerifC03Middleware$", quick=20000, thorough=300000, shards_quick=1, shards_thorough=4),
             dict(name="concurrent", run="^TestVerifC03Concurrent$", quick=400, thorough=8000, shards_thorough=4, race=True),
+        ]),
+        dict(name="cmd", dir="internal/cmd", src="C03/cmd", runs=[
+            dict(name="server-groups-config", run="^TestVerifC03CmdServerGroups$", quick=500, thorough=24000, shards_quick=2, shards_thorough=6),
         ]),
     ],
 )
